@@ -37,13 +37,11 @@ class Maintainer(Asset):
     '''
 
     def __init__(self, name = 'maintainer', capacity = float('inf'), value = 0):
-        super().__init__(name, value)
-
         self._capacity = capacity
         self._utilization = 0
-        self._env = None
         self._request_queue = []
         self._active_requests = []
+        super().__init__(name, value)
 
     @property
     def total_capacity(self):
